@@ -14,13 +14,26 @@ import (
 )
 
 var specC18 = report.Spec{Property: "C18", Check: "C18",
-	Rule: "valid polygons biased to collapse (thin edge-split growth, combs and zig-zags with pitch below/at/above a pixel, polyomino outlines with cells of 1/4..1.5 pixel, holes hugging the shell) x grids x ids x flags; " +
+	Rule: "valid polygons biased to collapse (thin edge-split growth, combs and zig-zags with pitch below/at/above a pixel, polyomino outlines with cells of 1/4..1.5 pixel, holes hugging the shell; nested C-shaped holes; 1 case in 400 (thorough 100) a 'sieve': two lobes joined by a corridor thinner than a pixel with a grid of up to 700 (thorough 2400) holes) x grids x ids x flags; " +
 		"a requested tile matrix is in scope when its routed boundary B (reference model) passes no pixel centre more than twice within a ring; oracle per such tile matrix: (1) every edge of every returned ring with >= 2 vertices is a straight run of consecutive routed edges of B, " +
 		"(2) every hole vertex lies inside or on its shell and no hole edge properly crosses a shell edge, (3) the signed area of the returned rings (reverse flag undone) equals the signed area of the routed rings, exactly (pixel^2/2 units). " +
 		"Non-trivial: some ring of B passes a centre twice, or two rings of B share a centre (a hole touches its shell after routing). Cases where no requested tile matrix is in scope (maxVisits >= 3 everywhere) are counted as out of scope.",
 	Assumptions: specC01.Assumptions}
 
 func genC18(t *rapid.T) SnapCase {
+	if rapid.IntRange(0, report.Scale(400, 100)).Draw(t, "sieve") == 57 {
+		// hundreds (thorough: up to 2400) of holes in a shell that splits in two
+		c := SnapCase{Grid: gen.RD, Q: 4, Shape: "sieve"}
+		g := c.Grid.MustBuild()
+		c.IDs = []int{rapid.IntRange(3, 14).Draw(t, "sieveID")}
+		c.Flags = gen.DrawFlags(t)
+		c.Flags.Ignore = false
+		rings := gen.Sieve(t, 4, report.Scale(700, 2400))
+		if poly, anchor, ok := placeShape(t, g, c.IDs, rings, 4); ok {
+			c.Poly, c.Anchor = poly, anchor
+		}
+		return c
+	}
 	return drawValidCase(t, validOpts{maxHoles: 2, collapseBias: true, maxVerts: 24}, gen.AnyGrid, 3)
 }
 
